@@ -18,6 +18,38 @@ use std::any::TypeId;
 use std::collections::{BTreeMap, BTreeSet};
 use std::marker::PhantomData;
 
+// a counting allocator: while armed it records the largest single allocation request (C14: memory proportional to the input)
+struct Counting;
+static ARMED: std::sync::atomic::AtomicBool = std::sync::atomic::AtomicBool::new(false);
+static MAXREQ: std::sync::atomic::AtomicUsize = std::sync::atomic::AtomicUsize::new(0);
+unsafe impl std::alloc::GlobalAlloc for Counting {
+    unsafe fn alloc(&self, l: std::alloc::Layout) -> *mut u8 {
+        if ARMED.load(std::sync::atomic::Ordering::Relaxed) {
+            MAXREQ.fetch_max(l.size(), std::sync::atomic::Ordering::Relaxed);
+        }
+        std::alloc::System.alloc(l)
+    }
+    unsafe fn dealloc(&self, p: *mut u8, l: std::alloc::Layout) {
+        std::alloc::System.dealloc(p, l)
+    }
+    unsafe fn realloc(&self, p: *mut u8, l: std::alloc::Layout, n: usize) -> *mut u8 {
+        if ARMED.load(std::sync::atomic::Ordering::Relaxed) {
+            MAXREQ.fetch_max(n, std::sync::atomic::Ordering::Relaxed);
+        }
+        std::alloc::System.realloc(p, l, n)
+    }
+}
+#[global_allocator]
+static ALLOC: Counting = Counting;
+/// run f and return its result together with the largest single allocation it requested
+fn max_request<R>(f: impl FnOnce() -> R) -> (R, usize) {
+    MAXREQ.store(0, std::sync::atomic::Ordering::Relaxed);
+    ARMED.store(true, std::sync::atomic::Ordering::Relaxed);
+    let r = f();
+    ARMED.store(false, std::sync::atomic::Ordering::Relaxed);
+    (r, MAXREQ.load(std::sync::atomic::Ordering::Relaxed))
+}
+
 type PT = Type<PortableForm>;
 type Sym = UntrackedSymbol<TypeId>;
 fn sym(i: u32) -> Sym {
@@ -126,6 +158,10 @@ fn shapes(n: u32) -> Vec<PT> {
                 }),
                 &[],
             ));
+            // two members with different ids next to each other in ONE composite / ONE variant (a per-loop cache or a lost update between
+            // neighbouring fields needs a pair whose ids are related through the renaming)
+            v.push(ptype(&["Pair"], vec![], TypeDef::Composite(TypeDefComposite { fields: vec![pfield(Some("a"), a, None, &[]), pfield(Some("b"), b, None, &[])] }), &[]));
+            v.push(ptype(&["One"], vec![], TypeDef::Variant(TypeDefVariant { variants: vec![Variant { name: "V".into(), fields: vec![pfield(None, a, None, &[]), pfield(None, b, None, &[])], index: 1, docs: vec![] }] }), &[]));
             // a skipped (None) parameter before / after a concrete one, and a parameter-only reference
             v.push(ptype(&["Q"], vec![("T", None), ("U", Some(a))], TypeDef::Composite(TypeDefComposite { fields: vec![pfield(None, b, None, &[])] }), &[]));
             v.push(ptype(&["Q"], vec![("T", Some(a)), ("U", None)], TypeDef::Composite(TypeDefComposite { fields: vec![pfield(None, b, None, &[])] }), &[]));
@@ -241,6 +277,10 @@ fn c12(st: &mut Stats, max: u32) -> Res {
         ptype(&[], vec![], TypeDef::Tuple(TypeDefTuple { fields: vec![sym(0), sym(1), sym(1)] }), &[]),
         ptype(&["O"], vec![("U", Some(1)), ("T", None)], TypeDef::Tuple(TypeDefTuple { fields: vec![] }), &["b", "a"]),
         ptype(&["O"], vec![("T", None), ("U", Some(1))], TypeDef::Tuple(TypeDefTuple { fields: vec![] }), &["a", "b"]),
+        // values that share their whole DEFINITION and differ only outside it (path, docs): a table keyed by part of the value merges them
+        ptype(&[], vec![], TypeDef::Primitive(TypeDefPrimitive::U8), &[]),
+        ptype(&["my_crate", "Byte"], vec![], TypeDef::Primitive(TypeDefPrimitive::U8), &[]),
+        ptype(&[], vec![], TypeDef::Primitive(TypeDefPrimitive::U8), &["a byte"]),
     ];
     let nv = vals.len();
     // ops: 0..nv register value k, nv next_type_id, nv+1.. get(i)
@@ -437,6 +477,11 @@ impl<'a> Img<'a> {
     fn reference(&mut self, m: &MetaType, id: u32, what: &str) -> Res {
         if let Some(prev) = self.seen.get(m) {
             ensure!(*prev == id, "{}: the same type identity is referenced through two ids {} and {}", what, prev, id);
+            // the statement is about the type's OWN type_info(): a type that shares an identity (hence an id) with another one
+            // must return the same definition (C02 / C16 coherence) - compare with the first type met under this identity
+            if let Some(first) = self.by_id.get(&id) {
+                ensure!(first.type_info() == m.type_info(), "{}: id {} resolves to the definition of the type first met under this identity, but another type sharing the identity describes itself as {:?}", what, id, m.type_info().path.segments);
+            }
             return Ok(());
         }
         if let Some(other) = self.by_id.get(&id) {
@@ -1234,6 +1279,38 @@ fn c14_decode(st: &mut Stats) -> Res {
     Ok(())
 }
 
+/// C14 "uses memory proportional to the input": length fields corrupted to huge values.  Every byte position of the encodings of
+/// the small registries is overwritten with the compact encoding of 100 000, of 2^30 - 1 and of u32::MAX (smallest first, so that
+/// an implementation that pre-allocates from an untrusted length is reported before it can exhaust memory); decoding must not
+/// request a single allocation larger than 1 MiB + 1024 bytes per input byte (bounded check; the constant is generous on purpose).
+fn c14_memory(st: &mut Stats) -> Res {
+    let huge: [&[u8]; 3] = [&[0x82, 0x1a, 0x06, 0x00], &[0xfe, 0xff, 0xff, 0xff], &[0x03, 0xff, 0xff, 0xff, 0xff]];
+    for r in small_registries().iter() {
+        let bytes = r.encode();
+        if bytes.len() > 120 {
+            continue;
+        }
+        for h in huge.iter() {
+            for pos in 0..bytes.len() {
+                let mut v = bytes[..pos].to_vec();
+                v.extend_from_slice(h);
+                v.extend_from_slice(&bytes[pos + 1..]);
+                st.cases += 1;
+                let (res, req) = max_request(|| {
+                    let mut input = &v[..];
+                    PortableRegistry::decode(&mut input).is_ok()
+                });
+                if !res {
+                    st.nontrivial += 1;
+                }
+                let budget = (1usize << 20) + 1024 * v.len();
+                ensure!(req <= budget, "decoding the {} bytes {:?} requested a single allocation of {} bytes (budget {}): memory is not proportional to the input", v.len(), v, req, budget);
+            }
+        }
+    }
+    Ok(())
+}
+
 // ------------------------------------------------------------------------------------------------
 // C08: documented JSON shape (independent builder) and JSON round trip, on enumerated registries
 #[cfg(feature = "json")]
@@ -1439,7 +1516,7 @@ fn main() {
     let r = match prop {
         "C10" => c10(&mut st, max),
         "C12" => c12(&mut st, max),
-        "C14" => c14(&mut st, max).and_then(|_| c14_decode(&mut st)).and_then(|_| c14_json(&mut st)),
+        "C14" => c14(&mut st, max).and_then(|_| c14_memory(&mut st)).and_then(|_| c14_decode(&mut st)).and_then(|_| c14_json(&mut st)),
         "C07" => c07(&mut st, max),
         "C01" => registry_histories(&mut st, max).and_then(|_| c10(&mut st, max.min(2))).and_then(|_| c12(&mut st, 3)),
         "C02" => registry_histories(&mut st, max),
